@@ -624,25 +624,25 @@ func writeEvidence(root string, p *Prop, tier string, seed uint64, seeds []uint6
 		sampleJSON = sampleJSON[:3]
 	}
 	cov := map[string]any{
-		"evaluations":                st.Runs,
-		"distinct_nontrivial":        distinct,
-		"rule":                       p.Rule,
-		"samples":                    sampleJSON,
-		"enumerated_cases":           fixedDone,
-		"seeded_cases":               seededDone,
-		"nontrivial_runs":            st.Nontrivial,
-		"simulated_events":           st.Events,
-		"simulated_time_note":        "the library has no clock, timer or deadline; simulated time is the global event sequence number (one tick per transport operation, callback and schedule point)",
-		"schedule_decisions":         st.Decisions,
-		"distinct_interleavings":     traces,
-		"fault_kinds_fired":          st.Faults,
-		"rare_condition_probes":      st.Probes,
-		"deadline_calls":             st.Deadlines,
-		"runs_per_hour":              int64(float64(st.Runs) / wall * 3600),
-		"seeds":                      seeds,
-		"race_detector_shard":        raced,
-		"components_real_vs_stub":    p.Components,
-		"known_findings_reproduced":  known,
+		"evaluations":               st.Runs,
+		"distinct_nontrivial":       distinct,
+		"rule":                      p.Rule,
+		"samples":                   sampleJSON,
+		"enumerated_cases":          fixedDone,
+		"seeded_cases":              seededDone,
+		"nontrivial_runs":           st.Nontrivial,
+		"simulated_events":          st.Events,
+		"simulated_time_note":       "the library has no clock, timer or deadline; simulated time is the global event sequence number (one tick per transport operation, callback and schedule point)",
+		"schedule_decisions":        st.Decisions,
+		"distinct_interleavings":    traces,
+		"fault_kinds_fired":         st.Faults,
+		"rare_condition_probes":     st.Probes,
+		"deadline_calls":            st.Deadlines,
+		"runs_per_hour":             int64(float64(st.Runs) / wall * 3600),
+		"seeds":                     seeds,
+		"race_detector_shard":       raced,
+		"components_real_vs_stub":   p.Components,
+		"known_findings_reproduced": known,
 	}
 	if p.Exhaustive != "" {
 		cov["exhaustive_subspace"] = p.Exhaustive
